@@ -97,6 +97,15 @@ type KStr string
 
 func (p Person) Named(k KStr) string { return "named:" + string(k) }
 
+// Tag has a fixed parameter whose type differs from the variadic element type.
+func (p Person) Tag(prefix string, ids ...int) string {
+	parts := make([]string, len(ids))
+	for i, id := range ids {
+		parts[i] = strconv.Itoa(id)
+	}
+	return prefix + ":" + strings.Join(parts, ",")
+}
+
 // Plain implements none of the interfaces.
 type Plain struct{ X int }
 
